@@ -21,7 +21,9 @@ import (
 	"sync/atomic"
 	"time"
 
+	"github.com/cnotch/ipchub/config"
 	"github.com/cnotch/ipchub/media"
+	"github.com/cnotch/ipchub/network/socket/buffered"
 	"github.com/cnotch/ipchub/network/websocket"
 	"github.com/cnotch/ipchub/service/rtsp"
 	"github.com/cnotch/ipchub/service/wsp"
@@ -272,6 +274,17 @@ func (t *teeReader) Read(p []byte) (int, error) {
 // DialTCP starts a real RTSP session on a net.Pipe.  readChunk > 0 limits the size of the
 // client's socket reads (so that a stall can fall inside a frame).
 func DialTCP(readChunk int) *Conn {
+	c, _ := dialTCP(readChunk, false)
+	return c
+}
+
+// DialTCPBuffered is DialTCP, but the connection handed to the accept handler is already a
+// *buffered.Conn (newSession's buffered.NewConn then configures and uses that very object instead of
+// wrapping the socket itself): the caller holds the session's write queue and rate limiter
+// (buffered.VerifUseUpTokens / VerifGrantToken, Buffered()).
+func DialTCPBuffered(readChunk int) (*Conn, *buffered.Conn) { return dialTCP(readChunk, true) }
+
+func dialTCP(readChunk int, wrap bool) (*Conn, *buffered.Conn) {
 	cli, srv := net.Pipe()
 	c := &Conn{Flavour: "tcp", items: make(chan Item, 4096)}
 	// net.Pipe is unbuffered: a write blocks until the server reads.  A real socket buffers, so
@@ -336,7 +349,13 @@ func DialTCP(readChunk int) *Conn {
 		}
 	}
 	acceptors()
-	rtspAccept(pipeConn{srv, c})
+	var bc *buffered.Conn
+	if wrap {
+		bc = buffered.NewConn(pipeConn{srv, c})
+		rtspAccept(bc)
+	} else {
+		rtspAccept(pipeConn{srv, c})
+	}
 	go func() {
 		var src io.Reader = &teeReader{c, cli}
 		size := 4096
@@ -359,7 +378,7 @@ func DialTCP(readChunk int) *Conn {
 			c.items <- it
 		}
 	}()
-	return c
+	return c, bc
 }
 
 // DialWS starts a real ws-rtsp session (gorilla client ⇄ TryUpgrade ⇄ rtsp session).
@@ -685,10 +704,107 @@ type Fixture struct {
 	Doc    *SdpDoc // nil = empty SDP string
 	Mc     *FakeMulticast
 	Stream *media.Stream
+	// Pushed: the stream is PUBLISHED by a real RTSP pusher session (ANNOUNCE, SETUP mode=record over
+	// TCP, RECORD on a connection of its own, kept open), so that it is multicast-capable through the
+	// real multicast proxy of service/rtsp (member identity, UDP socket, proxy consumer on the stream).
+	// Needs a Doc with a video section.
+	Pushed bool
+	// FellBack: the fixture could not be published by a pusher session and is a plain registered stream
+	// with a FakeMulticast instead (the harness counts it)
+	FellBack bool
+	pusher   *Conn
+	pseq   int
+}
+
+// pusherAsk sends one request on the pusher's connection and returns the status of its answer (0: none).
+func (f *Fixture) pusherAsk(q Req) int {
+	f.pseq++
+	q.CSeq = "px" + strconv.Itoa(f.pseq)
+	if f.pusher.Send(q.Wire()) != nil {
+		return 0
+	}
+	for {
+		it, ok := f.pusher.Next()
+		if !ok || it.Kind == KEOF {
+			return 0
+		}
+		if it.Kind == KResp && it.Header["CSeq"] == q.CSeq {
+			return it.Code
+		}
+	}
+}
+
+// publish (re-)publishes a pushed fixture with a fresh pusher session
+func (f *Fixture) publish() bool {
+	if f.pusher != nil {
+		old := f.Stream
+		f.pusher.Close()
+		f.pusher = nil
+		WaitUntil(func() bool { return media.Get(f.Path) != old || old == nil })
+	}
+	if f.Doc == nil {
+		return false
+	}
+	ctl := ""
+	for _, m := range f.Doc.Medias {
+		if m[0] == "v" {
+			ctl = m[1]
+			break
+		}
+	}
+	if ctl == "" {
+		return false
+	}
+	const base = "rtsp://pusher.example"
+	setup := base + f.Path + "/" + ctl
+	if len(ctl) >= 7 && strings.EqualFold(ctl[:7], "rtsp://") {
+		setup = ctl
+	}
+	for try := 0; try < 4; try++ {
+		// the pusher only ever sends keep-alives: its session must not run into the read time-out while a
+		// script waits (up to the watchdog) for something that is never released — the end of the pusher
+		// would release it.  The time-out is read once, when the session is created.
+		config.VerifSetNetTimeouts(24*time.Hour, 0)
+		f.pusher = DialTCP(0)
+		config.VerifSetNetTimeouts(0, 0)
+		ok := f.pusherAsk(Req{Method: "ANNOUNCE", URL: base + f.Path, CType: "application/sdp", Body: f.Doc.Text}) == 200 &&
+			f.pusherAsk(Req{Method: "SETUP", URL: setup, Transport: "RTP/AVP/TCP;unicast;interleaved=0-1;mode=record"}) == 200 &&
+			f.pusherAsk(Req{Method: "RECORD", URL: base + f.Path}) == 200
+		st := media.Get(f.Path)
+		if ok && st != nil && st.Multicastable() != nil {
+			// the model's table has a port base: the proxy's four ports must be consecutive (they are, except
+			// when the global port pool wraps around: publish again)
+			ma := st.Multicastable()
+			if ma.Port(1) == ma.Port(0)+1 && ma.Port(2) == ma.Port(0)+2 && ma.Port(3) == ma.Port(0)+3 {
+				f.Stream = st
+				return true
+			}
+		}
+		old := st
+		f.pusher.Close()
+		f.pusher = nil
+		WaitUntil(func() bool { return old == nil || media.Get(f.Path) != old })
+	}
+	return false
 }
 
 // Ensure (re-)registers the fixture if the registry no longer holds its stream.
 func (f *Fixture) Ensure() {
+	if f.Pushed {
+		// the pusher's session has a read time-out: every Ensure is a keep-alive as well
+		// (and a source on which an earlier session left something behind — reported by the harness for that
+		// session — is published afresh, so that what is left is not counted against later sessions)
+		if f.pusher != nil && f.Stream != nil && media.Get(f.Path) == f.Stream && f.Stream.VerifStatus() == media.StreamOK &&
+			f.Held() == 0 && f.pusherAsk(Req{Method: "OPTIONS", URL: "*"}) == 200 {
+			return
+		}
+		if f.publish() {
+			return
+		}
+		// could not be published (never on the unchanged tree): fall back to a plain registered stream
+		f.Pushed, f.FellBack = false, true
+		f.Mc = &FakeMulticast{}
+	}
 	if f.Stream != nil && media.Get(f.Path) == f.Stream && f.Stream.VerifStatus() == media.StreamOK {
 		return
 	}
@@ -703,6 +819,48 @@ func (f *Fixture) Ensure() {
 		f.Stream = media.NewStream(f.Path, text)
 	}
 	media.Regist(f.Stream)
+}
+
+// Multicast reports whether the fixture's stream is multicast-capable.
+func (f *Fixture) Multicast() bool { return f.Mc != nil || f.Pushed }
+
+// Held: what sessions hold on this fixture's stream: the consumers attached to it and, for a
+// multicast-capable one, the multicast side.  A multicast player of a published source is a member
+// of the source's proxy, which on behalf of its members owns a UDP socket and one consumer on the
+// stream: the three are one held resource, and as long as ANY of them is left it is held.
+func (f *Fixture) Held() int {
+	n := f.Stream.ConsumerCount()
+	if f.Mc != nil {
+		return n + f.Mc.Count()
+	}
+	if f.Pushed {
+		if members, socket, consuming, ok := rtsp.VerifMulticastState(f.Stream.Multicastable()); ok {
+			if members > n {
+				n = members
+			}
+			if (socket || consuming) && n == 0 {
+				n = 1
+			}
+		}
+	}
+	return n
+}
+
+// NormTransport rewrites, in the Transport header of a SETUP answer, the multicast parameters of a
+// published fixture's proxy (its address and ports come from a global pool and change with every
+// publication) into the constants of the model's table; anything else is left as it is.
+func (f *Fixture) NormTransport(h string) string {
+	if !f.Pushed || f.Stream == nil || f.Stream.Multicastable() == nil {
+		return h
+	}
+	ma := f.Stream.Multicastable()
+	for _, ch := range []int{0, 2} {
+		suffix := fmt.Sprintf(";destination=%s;port=%d-%d;source=%s;ttl=%d", ma.MulticastIP(), ma.Port(ch), ma.Port(ch+1), ma.SourceIP(), ma.TTL())
+		if strings.HasSuffix(h, suffix) {
+			return strings.TrimSuffix(h, suffix) + fmt.Sprintf(";destination=%s;port=%d-%d;source=%s;ttl=%d", McIP, McPortBase+ch, McPortBase+ch+1, McSrc, McTTL)
+		}
+	}
+	return h
 }
 
 func VideoAudioSdp(vctl, actl string) string {
